@@ -49,9 +49,11 @@ variable [LT K] [DecidableLT K] [LE K] [DecidableLE K] [HasFloor K]
 /-- the literal `0.5` -/
 def half : K := ((1:Nat) : K) / ((2:Nat) : K)
 
-/-- `(coord - lo) / dx - 0.5`, or the coordinate itself for `cell_coords=True` -/
+/-- position relative to the centre of cell 0 in units of cells: `(coord - lo) / dx - 0.5`, and `coord - 0.5` for
+`cell_coords=True` (cell coordinates as `grid.transform(.., "cell")` defines them: cell `i` spans `[i, i+1]`, its centre is
+`i + 1/2`; the code read the coordinate itself until fix F41) -/
 def cellCoord (cellCoords : Bool) (ax : Axis K) (coord : K) : K :=
-  if cellCoords then coord else (coord - ax.lo) / ax.dx - half
+  if cellCoords then coord - half else (coord - ax.lo) / ax.dx - half
 
 /-- `if w < 1e-15: w = 0` with the constant as a parameter -/
 def clip (eps w : K) : K := if w < eps then ((0:Nat) : K) else w
